@@ -979,6 +979,33 @@ func (c *EvalCtx) stage2Builtin(n *Node) (Val, bool) {
 		ma := c.st.Heap[m.Cell].(*MapAgg)
 		k := keyIndex(ma, c.eval(n.Kids[1]))
 		return mkBool(k >= 0), true
+	case "regexp_pattern_is":
+		// every regexp.MatchString call of the fragment matches against exactly
+		// the given pattern text (as a raw or interpreted string literal)
+		em := c.emittedText(c.eval(n.Kids[0]))
+		fr := prepareFragment(em)
+		want := c.renderKey(n, 1)
+		okAll, found := true, false
+		if fr.File != nil {
+			ast.Inspect(fr.File, func(nd ast.Node) bool {
+				call, ok := nd.(*ast.CallExpr)
+				if !ok || render(call.Fun) != "regexp.MatchString" || len(call.Args) < 1 {
+					return true
+				}
+				found = true
+				lit, ok := call.Args[0].(*ast.BasicLit)
+				if !ok || lit.Kind != token.STRING {
+					okAll = false
+					return true
+				}
+				body := lit.Value[1 : len(lit.Value)-1]
+				if body != want {
+					okAll = false
+				}
+				return true
+			})
+		}
+		return mkBool(found && okAll), true
 	case "independent_of":
 		// the emitted text does not depend on the given (unknown) string input
 		em := c.emittedText(c.eval(n.Kids[0]))
